@@ -381,6 +381,18 @@ func ruleC34(c *Ctx) {
 	}
 	add := c.Func(pk, "(*Table).add")
 	c.RequireFactsAtCalls("facts", add, "(*p2p/discover/dht.bucket).addFront", "call:(*p2p/discover/dht.bucket).bump = false", "call:builtin:len < "+c.constVal(pk, "bucketSize"), "field:p2p/discover/dht.Node.ID != field:p2p/discover/dht.Node.ID")
+	// a node that is already a live entry of its (full) bucket never also becomes a replacement
+	// candidate: deleteReplace would move it in a second time
+	if add != nil {
+		ws := c.writersOfIn(add, "p2p/discover/dht.bucket", "replacements")
+		ok, d := len(ws) >= 1, "no store to bucket.replacements in add"
+		for _, w := range ws {
+			if !factsAt(w)["call:(*p2p/discover/dht.bucket).bump = false"] {
+				ok, d = false, "replacements written at "+c.Pos(w.Pos())+" without bump(n) having answered false"
+			}
+		}
+		c.Require("facts", fname(add)+": the replacement cache takes a node only if it is not a live entry of the bucket", ok, "%s", d)
+	}
 	st := c.Func(pk, "(*Table).stuff")
 	if st != nil {
 		for _, w := range c.writersOfIn(st, "p2p/discover/dht.bucket", "entries") {
